@@ -274,9 +274,10 @@ fn vf_normalise_host(host: String, mask: NetworkFilterMask) -> (r: Result<String
 {
 //@EXTRACT src/filters/network.rs :: impl NetworkFilter :: fn parse
 //@ SAFETY C11.parse.hostname_form.safety
-//@ FROM
-                let lowercase = host.to_lowercase();
-//@ ENDFROM
+//@ FROMAFTER
+        let hostname_decoded = hostname
+            .map(|host| {
+//@ ENDFROMAFTER
 //@ TO
                 Ok(hostname)
 //@ ENDTO
